@@ -24,7 +24,11 @@ RULE_G = ("generic interpolators: deterministic sweeps (every grid value / midpo
           "(grid line, corner, boundary, outside, wrong length, 1 ulp from the boundary). " + TOL)
 RULE_S = ("speed/grade model: the four bundled vehicle models through InterpolationSpeedGradeModel::new or "
           "load_prediction_model(ModelType::Interpolate), all model units, bins 2..9 per axis, 8 queries per case in every "
-          "speed/grade unit (inside, grid point, grid line, upper boundary, outside one/both axes, far outside, NaN/inf); "
+          "speed/grade unit (inside, grid point, grid line, upper boundary, outside one/both axes, far outside, NaN/inf), all "
+          "calls of a case on ONE model instance; SEQUENCE cases (Bolt/Camry deterministic + a third of the random cases): "
+          "3-10 calls where consecutive calls re-use the same raw numbers under other speed/grade units, repeat a call, or "
+          "keep the units and change the numbers, and every call is also asked of a fresh instance built for it alone "
+          "(a difference is printed as HISTORY-DEPENDENT in the I line, so I != S); the M line converts per call; "
           "the model's predictor is the underlying random forest sampled by the harness exactly as `new` samples it; "
           "bit-exact with the FN model (M line); S = QN checker: the axes have `bins` increasing points from the lower to "
           "the upper bound, never Err, value at the clamped point between the 4 surrounding underlying values, equal to the "
